@@ -28,6 +28,11 @@ def execute(case):
             "py_u": pyparts(u), "py_r": pyparts(r) if exc is None else pyparts(None)}
 
 
+def execute_stages(case):
+    from harness import stages
+    return stages.record(dec(case["u"]), default_protocol=dec(case["dp"]), quoted=case["quoted"], strip_fragment=case["sf"])
+
+
 def describe(case):
     return "canonicalize_url(%r, default_protocol=%r, quoted=%s, strip_fragment=%s)" % (
         dec(case["u"]), dec(case["dp"]), case["quoted"], case["sf"])
@@ -73,7 +78,13 @@ def run(ctx):
     ctx.extra["shape_strings"] = len(data["shape"])
     failing = core.judge(ctx, "harness.checks.c01", cases, "Trace_C01", TRACE_CFG, describe, env=ENV,
                          nontrivial=lambda c, e: (tuple(c["u"]), c["quoted"], c["sf"]) if e["r"] != c["u"] else None)
-    ctx.traces_validated = len(cases)
+    # stage-level traces of a slice of the same inputs: the helper calls of each canonicalize_url call, judged stage by stage
+    step = max(1, len(cases) // ctx.pick(6000, 40000))
+    scases = [dict(c) for c in cases[::step]]
+    sfail = stage_judge(ctx, scases)
+    failing += sfail
+    ctx.extra["stage_level_traces"] = len(scases)
+    ctx.traces_validated = len(cases) + len(scases)
     ctx.exhaustive = True
     ctx.rule = ("inputs: 12 focus contexts (user, password, path, query key, query value, fragment) x every token sequence of length <= %d "
                 "over the 40-token alphabet, TLC RandomSubset sequences of lengths %s, every sequence of length 3..4 (thorough 5) over 8 glue-prone tokens in 4 contexts, and %s of the component-form product "
@@ -85,6 +96,29 @@ def run(ctx):
     if ctx.drift and not n:
         raise core.Machinery("%d events where Url.tla disagrees with urlsplit: %s" % (ctx.drift, ctx.notes[:5]))
     return n
+
+
+def stage_judge(ctx, scases):
+    import sys
+    for i, c in enumerate(scases):
+        c["id"] = i + 1
+    traces = core.execute_all("harness.checks.c01stages", scases, chunk=200)
+    events, owner = [], []
+    for ci, tr in enumerate(traces):
+        for e in tr:
+            e["id"] = len(events) + 1
+            e["tr"] = ci
+            events.append(e)
+            owner.append(ci)
+    verdicts = ctx.validate("Trace_C01S", events, TRACE_CFG, env=ENV, group=lambda e: e["tr"], shard=6000)
+    out = []
+    for vid, clauses, triggers, _r in verdicts:
+        c = dict(scases[owner[vid - 1]])
+        c["stage_event"] = core._brief(events[vid - 1])
+        out.append((c, events[vid - 1], clauses, triggers))
+    return out
+
+
 
 
 def replay(ctx, body):
